@@ -1542,6 +1542,7 @@ func (t *Tokenizer) readPunctuation() (models.Token, error) {
 			if nextR == '$' || isIdentifierStart(nextR) {
 				// Try to read the opening tag
 				tagStart := t.pos.Index
+				afterDollar := t.pos // a lone '$' gives back what was scanned as a possible tag
 				if nextR == '$' {
 					// $$ case - empty tag
 				} else {
@@ -1553,6 +1554,7 @@ func (t *Tokenizer) readPunctuation() (models.Token, error) {
 						}
 						if !isIdentifierChar(cr) {
 							// Not a valid tag, treat as standalone $
+							t.pos = afterDollar
 							return models.Token{Type: models.TokenTypePlaceholder, Value: "$"}, nil
 						}
 						t.pos.AdvanceRune(cr, cs)
@@ -1560,10 +1562,12 @@ func (t *Tokenizer) readPunctuation() (models.Token, error) {
 				}
 				// Check for closing $ of the tag
 				if t.pos.Index >= len(t.input) {
+					t.pos = afterDollar
 					return models.Token{Type: models.TokenTypePlaceholder, Value: "$"}, nil
 				}
 				closingR, closingSize := utf8.DecodeRune(t.input[t.pos.Index:])
 				if closingR != '$' {
+					t.pos = afterDollar
 					return models.Token{Type: models.TokenTypePlaceholder, Value: "$"}, nil
 				}
 				tag := string(t.input[tagStart:t.pos.Index])
